@@ -14,7 +14,7 @@ subprocess.run(["/venv/bin/python", "-m", "pytest", "-q", "-p", "no:cacheprovide
 passed = set()
 for tc in ET.parse(path).getroot().iter("testcase"):
     if not any(ch.tag in ("failure", "error", "skipped") for ch in tc):
-        passed.add(f"{tc.get('classname')}::{tc.get('name')}")
+        passed.add(f"{tc.get('classname')}::{tc.get('name')}".replace(os.path.realpath(repo), "/repo").replace(repo, "/repo"))
 os.unlink(path)
 want = set(base["stable_pass"])
 missing = sorted(want - passed)
